@@ -148,6 +148,7 @@ pub fn serialize(n: &Node, out: &mut String) {
 const ATTRS: &[&str] = &["", " class=\"a\"", " id='x y'", " data-k=v", " title=\"a>b\"", " hidden", " a=\"1\" b='2' c=3"];
 const TEXTS: &[&str] = &["hello", " ", "a &amp; b", "x > y", "caf\u{e9} \u{1f918}", "line\nbreak", "1 &lt; 2"];
 const COMMENTS: &[&str] = &[" c ", "</body>", "<p>", " a -- b ", ""];
+const RAWTEXTS: &[&str] = &["a </head> b", "x </body> y <p>", "</main></article>", "<b>bold</b> &amp; </html>", "plain"];
 const SCRIPTS: &[&str] = &["var a = 1;", "if (a < b) { x(); }", "document.write('</p><body>');", "<!-- x -->", "a<b"];
 const FILLER_TAGS: &[&str] = &["span", "em", "section", "li", "P", "DIV2"];
 
@@ -155,7 +156,7 @@ fn gen_filler(rng: &mut Rng, depth: usize) -> Node {
     match rng.below(if depth == 0 { 6 } else { 9 }) {
         0 | 1 => Node::Text(rng.pick(TEXTS).to_string()),
         2 => Node::Comment(rng.pick(COMMENTS).to_string()),
-        3 => Node::Raw(if rng.chance(1, 2) { "script".into() } else { "style".into() }, rng.pick(SCRIPTS).to_string()),
+        3 => { let tag = *rng.pick(&["script", "style", "script", "style", "title", "textarea", "noscript", "xmp", "iframe"]); let txt = if tag == "script" || tag == "style" { *rng.pick(SCRIPTS) } else { *rng.pick(RAWTEXTS) }; Node::Raw(tag.into(), txt.to_string()) }
         4 => Node::Void(rng.pick(&["br", "img", "meta", "hr"]).to_string(), rng.pick(ATTRS).to_string()),
         5 => Node::SelfClosing(rng.pick(&["x-a", "use"]).to_string(), rng.pick(ATTRS).to_string()),
         _ => { let n = rng.below(3); Node::Elem(rng.pick(FILLER_TAGS).to_string(), rng.pick(ATTRS).to_string(), (0..n).map(|_| gen_filler(rng, depth - 1)).collect()) }
